@@ -349,7 +349,7 @@ func checkC16(res *Result) {
 		for _, c := range ts {
 			a := c.Common().Args
 			okObj := anyBackward(g, a[0], func(x ssa.Value) bool { return isCallNamed(x, "Database.Get") })
-			okID := isParamNamed(a[1], "loopId")
+			okID := isURLParam(a[1])
 			okNow := isCallNamed(a[2], "Clock.Now")
 			res.check(okObj && okID && okNow, "C16-R3", fname(fn), p.pos(c), "toTombstone(stored object, its id, clock.Now())", fmt.Sprintf("object from Database.Get: %v; id is the object's id: %v; time from the clock: %v", okObj, okID, okNow))
 			for _, u := range findCalls(E, fn, "Database.Update") {
@@ -428,7 +428,7 @@ func checkC16(res *Result) {
 			res.check(okT, "C16-R5", fname(fn), p.pos(u), "what is written back is ToType of the merged map", "argument is "+valueLabel(u.Common().Args[1]))
 		}
 		for _, gt := range findCalls(E, fn, "Database.Get") {
-			res.check(isParamNamed(gt.Common().Args[1], "loopId"), "C16-R5", fname(fn), p.pos(gt), "the stored object read is the one the activity names", "different key")
+			res.check(isURLParam(gt.Common().Args[1]), "C16-R5", fname(fn), p.pos(gt), "the stored object read is the one the activity names", "different key")
 		}
 	}
 
@@ -444,4 +444,12 @@ func checkC16(res *Result) {
 	res.Assumptions = append(res.Assumptions, "value flow is an over-approximation", "CFG paths over-approximate feasible paths")
 	res.Undecided = []string{"that exactly the supplied members change (value level)", "which nulls a nested (non-top-level) member or an object given by IRI carries (outside the statement)", "answers of Database.Owns"}
 	res.Trusted = []string{"go/types, go/ssa, go/ast (x/tools v0.29.0)", "e1_effects.go, e2_facts.go, e4_flow.go, e9_errflow.go"}
+}
+
+
+// isURLParam: v is a parameter of type *url.URL of its function (the per-object id handed to
+// the per-object body, whatever it is called).
+func isURLParam(v ssa.Value) bool {
+	pa, ok := unwrap(v).(*ssa.Parameter)
+	return ok && typeIs(pa.Type(), "net/url", "URL")
 }
